@@ -88,6 +88,10 @@ class C07(Property):
             if ctx.out_of_time():
                 ctx.extra["incomplete"] = True
                 break
+            if i >= 25 and ctx.tier == "quick" and ctx.time_left() < 0.45 * self.quick_budget_s:
+                # heavily loaded machine: the plan is "up to n workflows", at least 25 (the corpus included)
+                ctx.notes.append(f"soft time limit: stopped after {i} of {n} planned workflows")
+                break
             feats = {"exec": 4} if rng.random() < 0.35 else ({"cart": 4, "gather": 6} if rng.random() < 0.25 else ({"loop": 3} if rng.random() < 0.25 else None))
             spec = wfgen.gen_spec(rng, size=rng.randint(2, 12), features=feats)
             if i < len(wfgen.CORPUS):
